@@ -1,12 +1,612 @@
-/-! Executable model for property C17 (core-only).  Not built yet: the driver answers
-    `unimplemented` so that a check of this property cannot pass by accident. -/
+import FpgoVerif.Model.C17Subst
+/-! Executable model for property C17 (core-only): the `APIMake*` constructors of
+    network/simpleHTTP.go l.358-506 as they are NOW (after fix commit f67e541).
+
+    * header maps live in a heap (`World.heap`, address = index) so that "a copy of DefaultHeader,
+      never the shared map itself" is expressible: `Header.Clone()` allocates.
+    * a constructor yields an `ApiDef` (pure data: method, template, content type, kind); calling the
+      API function yields a `MonadIO` = `World → Outcome × World`; `World.log` is what reached the
+      transport (the stub `http.RoundTripper` of the harness).
+    * serializer / transport / body reader / deserializer are parameters (`Env`).
+    * `commaOk = true` is the current `tempTarget.(*R)` with the comma-ok form, `false` the pinned
+      code (panics when the deserializer returns a nil interface) — kept for the refutation theorem. -/
 namespace FpgoVerif.C17
 
-/-- one protocol case line in, one canonical observation line out -/
-def handle (_line : String) : String := "unimplemented"
+/-! ### small string utilities (bytes as `Char`s) -/
 
-/-- spec-level oracle: given the case line and the observation printed by the real code, decide
-    whether the *property* is violated (`violation <why>`) or not (`allowed <why>`). -/
-def judge (_line _impl : String) : String := "violation model-and-implementation-disagree"
+def hexDigit (n : Nat) : Char :=
+  if n < 10 then Char.ofNat (48 + n) else Char.ofNat (87 + n)
+
+def hexVal (c : Char) : Option Nat :=
+  if '0' ≤ c ∧ c ≤ '9' then some (c.toNat - 48)
+  else if 'a' ≤ c ∧ c ≤ 'f' then some (c.toNat - 87)
+  else if 'A' ≤ c ∧ c ≤ 'F' then some (c.toNat - 55)
+  else none
+
+def hex : Str → Str
+  | [] => []
+  | c :: s => hexDigit (c.toNat / 16) :: hexDigit (c.toNat % 16) :: hex s
+
+def unhex : Str → Str
+  | a :: b :: s => match hexVal a, hexVal b with
+    | some x, some y => Char.ofNat (x * 16 + y) :: unhex s
+    | _, _ => unhex s
+  | _ => []
+
+def strLt : Str → Str → Bool
+  | [], [] => false
+  | [], _ :: _ => true
+  | _ :: _, [] => false
+  | a :: as, b :: bs => if a.toNat < b.toNat then true else if b.toNat < a.toNat then false else strLt as bs
+
+def insertBy {α} (lt : α → α → Bool) (x : α) : List α → List α
+  | [] => [x]
+  | y :: ys => if lt x y then x :: y :: ys else y :: insertBy lt x ys
+
+def sortBy {α} (lt : α → α → Bool) (l : List α) : List α := l.foldr (insertBy lt) []
+
+def joinWith (sep : Str) : List Str → Str
+  | [] => []
+  | [a] => a
+  | a :: b :: r => a ++ sep ++ joinWith sep (b :: r)
+
+/-! ### headers (a Go `map[string][]string` as an association list with unique keys) -/
+
+abbrev Header := List (Str × List Str)
+
+/-- `http.Header.Add` (keys are already canonical in everything the harness generates) -/
+def hAdd (h : Header) (k v : Str) : Header :=
+  match h with
+  | [] => [(k, [v])]
+  | (k', vs) :: r => if k' = k then (k', vs ++ [v]) :: r else (k', vs) :: hAdd r k v
+
+def showHeader (h : Header) : Str :=
+  if h.isEmpty then "-".toList
+  else joinWith "+".toList
+    ((sortBy (fun a b => strLt a.1 b.1) h).map (fun kv => hex kv.1 ++ '~' :: joinWith ",".toList (kv.2.map hex)))
+
+def showHeaderOpt : Option Header → Str
+  | none => "nil".toList
+  | some h => showHeader h
+
+/-! ### requests, world -/
+
+/-- what the transport sees -/
+structure SentReq where
+  method : Str
+  url : Str
+  hdrAddr : Nat
+  hdr : Header
+  body : Str        -- canonical body record ("nil", "raw:<hex>", "mp:<k>=<v>,…")
+deriving Repr, DecidableEq
+
+abbrev Target := Str × Int
+
+structure World where
+  heap : List Header
+  log : List SentReq
+  targets : List Target := []     -- the `target *R` cells supplied by the callers (address = index)
+deriving Repr, DecidableEq
+
+def World.alloc (w : World) (h : Header) : Nat × World := (w.heap.length, { w with heap := w.heap ++ [h] })
+def World.get (w : World) (a : Nat) : Header := (w.heap[a]?).getD []
+def World.set (w : World) (a : Nat) (h : Header) : World := { w with heap := w.heap.set a h }
+
+inductive ErrC | ser | tx | read | dec | json | url | method | other
+deriving DecidableEq, Repr
+
+def ErrC.show : ErrC → String
+  | .ser => "ser" | .tx => "tx" | .read => "read" | .dec => "dec" | .json => "json"
+  | .url => "url" | .method => "method" | .other => "other"
+
+def World.target (w : World) (a : Nat) : Target := (w.targets[a]?).getD ([], 0)
+def World.setTarget (w : World) (a : Nat) (t : Target) : World := { w with targets := w.targets.set a t }
+
+/-- the `*APIResponse[R]` as observed: `Err` class and `TargetObject`; or a Go panic -/
+inductive Outcome
+  | resp (err : Option ErrC) (tgt : Option Target)
+  | panic
+deriving DecidableEq, Repr
+
+inductive Body
+  | json (a : Str) (n : Int)
+  | form (fields : List (Str × Str))
+deriving DecidableEq, Repr
+
+/-- external behaviours (parameters of the model; the harness injects failures here) -/
+structure Env where
+  jsonSer : Body → Except ErrC Str                      -- BodySerializer: canonical body record
+  mpSer : Body → Except ErrC (Str × Str)                -- MultipartSerializer: record, content type
+  transport : SentReq → Except ErrC (Except ErrC Str)   -- RoundTrip: error, or a body whose read fails/succeeds
+  deser : Str → Target → Option Target × Option ErrC    -- ResponseDeserializer given the target's current content:
+                                                        -- (new content of the returned *R | nil/other type, err)
+
+/-! ### `net/http` as far as the constructors use it (modelled, not verified) -/
+
+def isTokenChar (c : Char) : Bool :=
+  c.isAlphanum || "!#$%&'*+-.^_`|~".toList.contains c
+
+def validMethod (m : Str) : Bool := !m.isEmpty && m.all isTokenChar
+
+def isHex (c : Char) : Bool := (hexVal c).isSome
+
+/-- `net/url` `unescape` succeeds (path / fragment mode) -/
+def pctOk : Str → Bool
+  | [] => true
+  | '%' :: a :: b :: s => isHex a && isHex b && pctOk (b :: s)
+  | '%' :: _ => false
+  | _ :: s => pctOk s
+
+def cutAt (c : Char) : Str → Str × Option Str
+  | [] => ([], none)
+  | d :: s => if d = c then ([], some s) else
+    let (a, b) := cutAt c s
+    (d :: a, b)
+
+def hasCTL (s : Str) : Bool := s.any (fun c => c.toNat < 32 || c.toNat = 127)
+
+/-- `url.Parse` of `scheme://host/…` strings: `none` = parse error; `some u` = the URL the transport
+    sees, re-assembled (an empty fragment is dropped by `net/url`) -/
+def urlParse (u : Str) : Option Str :=
+  if hasCTL u then none else
+  let (pre, frag) := cutAt '#' u
+  let (path, _) := cutAt '?' pre
+  if !pctOk path then none else
+  match frag with
+  | none => some pre
+  | some f => if !pctOk f then none else if f.isEmpty then some pre else some (pre ++ '#' :: f)
+
+/-- `NewRequestWithContext` treats an empty method as GET -/
+def normMethod (m : Str) : Str := if m.isEmpty then "GET".toList else m
+
+/-- `http.NewRequestWithContext(ctx, method, url, body)`: fresh header map -/
+def newRequest (method url : Str) (body : Str) (w : World) : Except ErrC SentReq × World :=
+  let method := normMethod method
+  if !validMethod method then (.error .method, w) else
+  match urlParse url with
+  | none => (.error .url, w)
+  | some u =>
+    let (a, w) := w.alloc []
+    (.ok ⟨method, u, a, [], body⟩, w)
+
+/-- `DoRequest`: `client.Do(request)`; the client's transport sees the request exactly once (the
+    interceptor chain in between is property C18) -/
+def doRequest (env : Env) (req : SentReq) (w : World) : Except ErrC (Except ErrC Str) × World :=
+  let req := { req with hdr := w.get req.hdrAddr }
+  (env.transport req, { w with log := w.log ++ [req] })
+
+/-- `DoNewRequest` l.184-198 -/
+def doNewRequest (env : Env) (header : Option Nat) (method url : Str) (w : World) :
+    Except ErrC (Except ErrC Str) × World :=
+  match newRequest method url "nil".toList w with
+  | (.error e, w) => (.error e, w)
+  | (.ok req, w) =>
+    let req := match header with
+      | some a => { req with hdrAddr := a }
+      | none => req
+    doRequest env req w
+
+def contentTypeKey : Str := "Content-Type".toList
+
+/-- `DoNewRequestWithBodyOptions` l.201-218 -/
+def doNewRequestWithBodyOptions (env : Env) (header : Option Nat) (method url : Str) (body : Str)
+    (contentType : Str) (w : World) : Except ErrC (Except ErrC Str) × World :=
+  match newRequest method url body w with
+  | (.error e, w) => (.error e, w)
+  | (.ok req, w) =>
+    let req := match header with
+      | some a => { req with hdrAddr := a }
+      | none => req
+    let w := if contentType ≠ [] then w.set req.hdrAddr (hAdd (w.get req.hdrAddr) contentTypeKey contentType) else w
+    doRequest env req w
+
+/-- `http.Header.Clone()`: nil stays nil, otherwise a fresh map with the same content.
+    `cloned = false` models passing the shared map itself (for the refutation theorem only). -/
+def cloneHeader (cloned : Bool) (h : Option Nat) (w : World) : Option Nat × World :=
+  match h with
+  | none => (none, w)
+  | some a => if cloned then let (b, w) := w.alloc (w.get a); (some b, w) else (some a, w)
+
+/-- `decodeResponseBody` l.485-498 -/
+def decodeResponseBody (commaOk : Bool) (env : Env) (raw : Except ErrC Str) (tgt : Nat) (w : World) : Outcome × World :=
+  match raw with
+  | .error e => (.resp (some e) none, w)
+  | .ok bytes =>
+    let r := env.deser bytes (w.target tgt)      -- (tempTarget, response.Err)
+    match r.1 with
+    | some t => (.resp r.2 (some t), w.setTarget tgt t)
+    | none => if commaOk then (.resp r.2 none, w) else (.panic, w)
+
+/-! ### the constructors -/
+
+inductive Kind | noBody | body | multipart
+deriving DecidableEq, Repr
+
+/-- what a constructor closes over -/
+structure ApiDef where
+  kind : Kind
+  method : Str
+  tmpl : Str
+  contentType : Str
+deriving DecidableEq, Repr
+
+structure Api where
+  base : Str
+  defaultHeader : Option Nat
+deriving Repr
+
+structure Flags where
+  commaOk : Bool := true
+  cloned : Bool := true
+  pinnedURL : Bool := false
+
+def urlOf (fl : Flags) (api : Api) (d : ApiDef) (ps : List (Str × Val)) : Str :=
+  api.base ++ '/' :: replaceLoop fl.pinnedURL d.tmpl ps
+
+/-- the effect closure handed to `MonadIONewGenerics` by the three generic constructors
+    (l.401-427, l.434-461, l.468-480) -/
+def effect (fl : Flags) (api : Api) (d : ApiDef) (env : Env) (ps : List (Str × Val)) (body : Option Body)
+    (tgt : Nat) (w : World) : Outcome × World :=
+  match d.kind with
+  | .noBody =>
+    let (h, w) := cloneHeader fl.cloned api.defaultHeader w
+    match doNewRequest env h d.method (urlOf fl api d ps) w with
+    | (.error e, w) => (.resp (some e) none, w)
+    | (.ok raw, w) => decodeResponseBody fl.commaOk env raw tgt w
+  | .body =>
+    let ser : Except ErrC Str := match body with
+      | none => .ok "nil".toList
+      | some b => env.jsonSer b
+    match ser with
+    | .error e => (.resp (some e) none, w)
+    | .ok bodyReader =>
+      let (h, w) := cloneHeader fl.cloned api.defaultHeader w
+      match doNewRequestWithBodyOptions env h d.method (urlOf fl api d ps) bodyReader d.contentType w with
+      | (.error e, w) => (.resp (some e) none, w)
+      | (.ok raw, w) => decodeResponseBody fl.commaOk env raw tgt w
+  | .multipart =>
+    let ser : Except ErrC (Str × Str) := match body with
+      | none => .ok ("nil".toList, [])
+      | some b => env.mpSer b
+    match ser with
+    | .error e => (.resp (some e) none, w)
+    | .ok (bodyReader, contentType) =>
+      let (h, w) := cloneHeader fl.cloned api.defaultHeader w
+      match doNewRequestWithBodyOptions env h d.method (urlOf fl api d ps) bodyReader contentType w with
+      | (.error e, w) => (.resp (some e) none, w)
+      | (.ok raw, w) => decodeResponseBody fl.commaOk env raw tgt w
+
+/-- `MonadIO`: a suspended effect; building it touches nothing -/
+abbrev MonadIO := Env → World → Outcome × World
+
+/-- the API function returned by a constructor: `func(pathParam, body, target) *MonadIODef` -/
+def apiCall (fl : Flags) (api : Api) (d : ApiDef) (ps : List (Str × Val)) (body : Option Body) (tgt : Nat) : MonadIO :=
+  fun env w => effect fl api d env ps body tgt w
+
+/-- one row per `APIMake*` constructor: what it passes to which generic constructor -/
+structure CtorRow where
+  name : String
+  delegate : String
+  method : String
+  contentType : String
+  serializer : String
+deriving DecidableEq, Repr
+
+/-- facts about a generic constructor body (regenerated by the extractor; see Gen/ApiTable.lean) -/
+structure GenericRow where
+  name : String
+  sendCall : String            -- the DoNewRequest* method called
+  sendCalls : Nat              -- number of DoNewRequest*/DoRequest calls in the whole function
+  insideEffect : Bool          -- … lexically inside the closure passed to MonadIONewGenerics
+  headerArg : String           -- normalised source of the header argument
+  headerCloned : Bool
+  methodArg : String
+  urlArg : String
+  contentTypeArg : String
+  decodeInside : Bool          -- decodeResponseBody is called inside the closure
+deriving DecidableEq, Repr
+
+def expectedCtors : List CtorRow := [
+  ⟨"APIMakeDelete", "APIMakeDoNewRequest", "DELETE", "", ""⟩,
+  ⟨"APIMakeGet", "APIMakeDoNewRequest", "GET", "", ""⟩,
+  ⟨"APIMakePatchJSONBody", "APIMakeDoNewRequestWithBodySerializer", "PATCH", "application/json", "RequestSerializerForJSON"⟩,
+  ⟨"APIMakePatchMultipartBody", "APIMakeDoNewRequestWithMultipartSerializer", "PATCH", "", "RequestSerializerForMultipart"⟩,
+  ⟨"APIMakePostJSONBody", "APIMakeDoNewRequestWithBodySerializer", "POST", "application/json", "RequestSerializerForJSON"⟩,
+  ⟨"APIMakePostMultipartBody", "APIMakeDoNewRequestWithMultipartSerializer", "POST", "", "RequestSerializerForMultipart"⟩,
+  ⟨"APIMakePutJSONBody", "APIMakeDoNewRequestWithBodySerializer", "PUT", "application/json", "RequestSerializerForJSON"⟩,
+  ⟨"APIMakePutMultipartBody", "APIMakeDoNewRequestWithMultipartSerializer", "PUT", "", "RequestSerializerForMultipart"⟩]
+
+def expectedGenerics : List GenericRow := [
+  ⟨"APIMakeDoNewRequest", "DoNewRequest", 1, true, "api.DefaultHeader.Clone()", true, "method",
+    "api.replacePathParams(relativeURL, pathParam)", "", true⟩,
+  ⟨"APIMakeDoNewRequestWithBodySerializer", "DoNewRequestWithBodyOptions", 1, true, "api.DefaultHeader.Clone()", true, "method",
+    "api.replacePathParams(relativeURL, pathParam)", "contentType", true⟩,
+  ⟨"APIMakeDoNewRequestWithMultipartSerializer", "DoNewRequestWithBodyOptions", 1, true, "api.DefaultHeader.Clone()", true, "method",
+    "api.replacePathParams(relativeURL, pathParam)", "contentType", true⟩]
+
+def kindOfDelegate (s : String) : Option Kind :=
+  if s = "APIMakeDoNewRequest" then some .noBody
+  else if s = "APIMakeDoNewRequestWithBodySerializer" then some .body
+  else if s = "APIMakeDoNewRequestWithMultipartSerializer" then some .multipart
+  else none
+
+/-- a named constructor applied to a template = its row interpreted (this is what the driver runs) -/
+def ctorOfRow (r : CtorRow) (tmpl : Str) : Option ApiDef :=
+  (kindOfDelegate r.delegate).map fun k => ⟨k, r.method.toList, tmpl, r.contentType.toList⟩
+
+def namedCtor (name : String) (tmpl : Str) : Option ApiDef :=
+  (expectedCtors.find? (·.name = name)).bind (ctorOfRow · tmpl)
+
+/-- the HTTP method a constructor *names* (specification side) -/
+def methodNamedBy (name : String) : Option String :=
+  if name = "APIMakeGet" then some "GET"
+  else if name = "APIMakeDelete" then some "DELETE"
+  else if name = "APIMakePostJSONBody" ∨ name = "APIMakePostMultipartBody" then some "POST"
+  else if name = "APIMakePutJSONBody" ∨ name = "APIMakePutMultipartBody" then some "PUT"
+  else if name = "APIMakePatchJSONBody" ∨ name = "APIMakePatchMultipartBody" then some "PATCH"
+  else none
+
+/-- declared content type (specification side): JSON constructors declare application/json, the
+    multipart ones take it from the serializer -/
+def contentTypeDeclaredBy (name : String) : Option String :=
+  if name = "APIMakePostJSONBody" ∨ name = "APIMakePutJSONBody" ∨ name = "APIMakePatchJSONBody" then some "application/json"
+  else if (methodNamedBy name).isSome then some ""
+  else none
+
+/-! ### line protocol -/
+
+def jsonText (a : Str) (n : Int) : Str :=
+  "{\"A\":\"".toList ++ a ++ "\",\"N\":".toList ++ (toString n).toList ++ "}".toList
+
+def bodyRecord : Body → Str
+  | .json a n => "raw:".toList ++ hex (jsonText a n)
+  | .form fs => "mp:".toList ++ joinWith ",".toList (sortBy strLt (fs.map fun kv => hex kv.1 ++ '=' :: hex kv.2))
+
+def mpContentType : Str := "multipart/form-data; boundary=*".toList
+
+inductive Fault | none | ser | tx | read | dec | dect
+deriving DecidableEq, Repr
+
+def parseFault (s : String) : Fault :=
+  if s = "ser" then .ser else if s = "tx" then .tx else if s = "read" then .read
+  else if s = "dec" then .dec else if s = "dect" then .dect else .none
+
+/-- response payload spec: `ok<vhex>:<k>` or `bad` -/
+def parseResp (s : String) : Option Target :=
+  if s.startsWith "ok" then
+    match (s.drop 2).toString.splitOn ":" with
+    | [v, k] => some (unhex v.toList, k.toInt?.getD 0)
+    | _ => none
+  else none
+
+def envOf (f : Fault) (resp : Option Target) : Env where
+  jsonSer b := if f = .ser then .error .ser else match b with
+    | .json .. => .ok (bodyRecord b)
+    | _ => .error .other
+  mpSer b := if f = .ser then .error .ser else match b with
+    | .form .. => .ok (bodyRecord b, mpContentType)
+    | _ => .error .other
+  transport _ := if f = .tx then .error .tx else .ok (if f = .read then .error .read else .ok [])
+  deser _ cur := if f = .dec then (none, some .dec) else if f = .dect then (none, none) else
+    match resp with
+    | some t => (some t, none)
+    | none => (some cur, some .json)
+
+def parseHeader (s : String) : Option Header :=
+  if s = "nil" then none else if s = "-" then some [] else
+  some ((s.splitOn "+").filterMap fun e => match e.splitOn "~" with
+    | [k, vs] => some (unhex k.toList, (vs.splitOn ",").map (fun v => unhex v.toList))
+    | _ => none)
+
+def parseVal (s : String) : Val :=
+  if s.startsWith "i" then .int ((s.drop 1).toString.toInt?.getD 0) else .str (unhex (s.drop 1).toString.toList)
+
+def parseParams (s : String) : List (Str × Val) :=
+  if s = "nil" ∨ s = "-" then [] else
+  (s.splitOn ",").filterMap fun e => match e.splitOn "=" with
+    | [k, v] => some (unhex k.toList, parseVal v)
+    | _ => none
+
+def parseBody (s : String) : Option Body :=
+  if s = "nil" then none
+  else if s.startsWith "j" then
+    match (s.drop 1).toString.splitOn ":" with
+    | [a, n] => some (.json (unhex a.toList) (n.toInt?.getD 0))
+    | _ => none
+  else if s = "f-" then some (.form [])
+  else if s.startsWith "f" then
+    some (.form (((s.drop 1).toString.splitOn ",").filterMap fun e => match e.splitOn "=" with
+      | [k, v] => some (unhex k.toList, unhex v.toList)
+      | _ => none))
+  else none
+
+structure Cfg where
+  base : Str
+  hdr : Option Header
+  ctor : String
+  m : Str
+  ct : Str
+  tmpl : Str
+
+def kv (toks : List String) (key : String) : String :=
+  match toks.find? (·.startsWith (key ++ "=")) with
+  | some t => (t.drop (key.length + 1)).toString
+  | none => ""
+
+def parseCfg (head : String) : Cfg :=
+  let toks := head.splitOn " "
+  { base := unhex (kv toks "base").toList, hdr := parseHeader (kv toks "hdr"), ctor := kv toks "ctor",
+    m := unhex (kv toks "m").toList, ct := unhex (kv toks "ct").toList, tmpl := unhex (kv toks "tmpl").toList }
+
+/-- the `ApiDef` the configured constructor produces -/
+def Cfg.apiDef (c : Cfg) : Option ApiDef :=
+  if c.ctor = "Do" then some ⟨.noBody, c.m, c.tmpl, []⟩
+  else if c.ctor = "DoBody" then some ⟨.body, c.m, c.tmpl, c.ct⟩
+  else if c.ctor = "DoMP" then some ⟨.multipart, c.m, c.tmpl, []⟩
+  else namedCtor ("APIMake" ++ c.ctor) c.tmpl
+
+def showSent (r : SentReq) : Str :=
+  '[' :: hex r.method ++ ' ' :: hex r.url ++ ' ' :: showHeader r.hdr ++ ' ' :: r.body ++ [']']
+
+def showOutcome : Outcome → Str
+  | .panic => "panic".toList
+  | .resp e t =>
+    "err=".toList ++ (match e with | none => "nil" | some e => e.show).toList ++ " tgt=".toList ++
+      (match t with | none => "nil".toList | some (v, k) => hex v ++ ':' :: (toString k).toList)
+
+/-- driver state: world, the API, the MonadIOs created so far -/
+structure St where
+  w : World
+  api : Api
+  ios : List MonadIO
+
+def initSt (c : Cfg) : St :=
+  match c.hdr with
+  | none => ⟨⟨[], [], []⟩, ⟨c.base, none⟩, []⟩
+  | some h => ⟨⟨[h], [], []⟩, ⟨c.base, some 0⟩, []⟩
+
+def splitSpaces (s : String) : List String := (s.splitOn " ").filter (· ≠ "")
+
+/-- the `call` op: invoke the API function — a new `MonadIO` and a fresh target cell, nothing else -/
+def callStep (fl : Flags) (d : ApiDef) (st : St) (ps : List (Str × Val)) (body : Option Body) : St :=
+  { st with ios := st.ios ++ [apiCall fl st.api d ps body st.w.targets.length],
+            w := { st.w with targets := st.w.targets ++ [([], 0)] } }
+
+def runOp (fl : Flags) (c : Cfg) (st : St) (op : String) : St × Str :=
+  match splitSpaces op with
+  | ["call", ps, body] =>
+    match c.apiDef with
+    | none => (st, "bad-ctor".toList)
+    | some d =>
+      (callStep fl d st (parseParams ps) (parseBody body), "io ".toList ++ (toString st.w.log.length).toList)
+  | ["eval", idx, f, r] =>
+    match st.ios[idx.toNat?.getD 0]? with
+    | none => (st, "noio".toList)
+    | some io =>
+      let (o, w') := io (envOf (parseFault f) (parseResp r)) st.w
+      match o with
+      | .panic => ({ st with w := w' }, "panic".toList)
+      | _ =>
+        let news := w'.log.drop st.w.log.length
+        ({ st with w := w' }, "n=".toList ++ (toString news.length).toList ++ ' ' ::
+          (news.flatMap fun r => showSent r ++ [' ']) ++ showOutcome o)
+  | ["mut"] =>
+    match st.w.log.getLast? with
+    | none => (st, "nomut".toList)
+    | some r => ({ st with w := st.w.set r.hdrAddr (hAdd (st.w.get r.hdrAddr) "X-Mut".toList "1".toList) }, "nil".toList)
+  | ["dh"] => (st, "hdr ".toList ++ showHeaderOpt (st.api.defaultHeader.map st.w.get))
+  | ["sent"] => (st, "sent ".toList ++ (toString st.w.log.length).toList)
+  | _ => (st, "bad-op".toList)
+
+def splitCase (line : String) : String × List String :=
+  match line.splitOn ": " with
+  | head :: rest =>
+    (head, ((": ".intercalate rest).splitOn ";").map (fun t => t.trimAscii.toString) |>.filter (· ≠ ""))
+  | [] => ("", [])
+
+def runCase (fl : Flags) (line : String) : String :=
+  let (head, ops) := splitCase line
+  let c := parseCfg head
+  let (_, outs) := ops.foldl (fun (acc : St × List String) op =>
+    let (st, o) := runOp fl c acc.1 op
+    (st, String.ofList o :: acc.2)) (initSt c, [])
+  " | ".intercalate outs.reverse
+
+def handle (line : String) : String := runCase {} line
+
+/-! ### specification-level oracle (what the property statement prescribes, independent of the
+    mechanism above): used by `judge` when model and implementation disagree -/
+
+def perms {α} : List α → List (List α)
+  | [] => [[]]
+  | x :: xs => (perms xs).flatMap fun p => (List.range (p.length + 1)).map fun i => p.take i ++ x :: p.drop i
+
+/-- the URL(s) the property allows: simultaneous substitution where the URL law's side conditions
+    hold; outside them (where Go's map order decides) any order's result -/
+def specURLs (c : Cfg) (ps : List (Str × Val)) : List Str :=
+  match tokenize c.tmpl with
+  | some ts =>
+    if paramsOK ps && decide ((ps.map (·.1)).Nodup) then [c.base ++ '/' :: Spec.subst ts ps]
+    else (perms ps).map fun p => c.base ++ '/' :: replaceLoop false c.tmpl p
+  | none => (perms ps).map fun p => c.base ++ '/' :: replaceLoop false c.tmpl p
+
+def Cfg.specMethod (c : Cfg) : Option Str :=
+  if c.ctor = "Do" ∨ c.ctor = "DoBody" ∨ c.ctor = "DoMP" then some c.m
+  else (methodNamedBy ("APIMake" ++ c.ctor)).map String.toList
+
+def Cfg.specKind (c : Cfg) : Kind :=
+  if c.ctor = "Do" ∨ c.ctor = "Get" ∨ c.ctor = "Delete" then .noBody
+  else if c.ctor = "DoBody" ∨ c.ctor.endsWith "JSONBody" then .body
+  else .multipart
+
+def Cfg.specContentType (c : Cfg) (body : Option Body) : Str :=
+  match c.specKind with
+  | .noBody => []
+  | .body => if c.ctor = "DoBody" then c.ct else "application/json".toList
+  | .multipart => if body.isSome then mpContentType else []
+
+structure SpecSt where
+  sent : Nat
+  calls : List (List (Str × Val) × Option Body × Target)
+
+/-- expected observation(s) of one op, given the number of requests sent so far -/
+def specOp (c : Cfg) (st : SpecSt) (op : String) : SpecSt × List Str :=
+  match splitSpaces op with
+  | ["call", ps, body] =>
+    ({ st with calls := st.calls ++ [(parseParams ps, parseBody body, ([], 0))] }, ["io ".toList ++ (toString st.sent).toList])
+  | ["eval", idx, f, r] =>
+    match st.calls[idx.toNat?.getD 0]? with
+    | none => (st, ["noio".toList])
+    | some (ps, body, cur) =>
+      let i := idx.toNat?.getD 0
+      let body := if c.specKind = .noBody then none else body
+      let f := parseFault f
+      let fail (e : String) : List Str := ["n=0 err=".toList ++ e.toList ++ " tgt=nil".toList]
+      if f = .ser ∧ body.isSome then (st, fail "ser") else
+      match c.specMethod with
+      | none => (st, ["bad-ctor".toList])
+      | some m =>
+        let m := if m.isEmpty then "GET".toList else m
+        if !validMethod m then (st, fail "method") else
+        let hdr0 : Header := (c.hdr.getD [])
+        let ct := c.specContentType body
+        let hdr := if ct ≠ [] then hAdd hdr0 "Content-Type".toList ct else hdr0
+        let bodyRec := match body with | none => "nil".toList | some b => bodyRecord b
+        -- (what TargetObject holds after a decoding FAILURE is not prescribed: the untouched target or nil)
+        let tails : List Str := match f with
+          | .tx => ["err=tx tgt=nil".toList]
+          | .read => ["err=read tgt=nil".toList]
+          | .dec => ["err=dec tgt=nil".toList]
+          | .dect => ["err=nil tgt=nil".toList]
+          | _ => match parseResp r with
+            | some (v, k) => ["err=nil tgt=".toList ++ hex v ++ ':' :: (toString k).toList]
+            | none => ["err=json tgt=".toList ++ hex cur.1 ++ ':' :: (toString cur.2).toList, "err=json tgt=nil".toList]
+        let outs := (specURLs c ps).flatMap fun u =>
+          match urlParse u with
+          | none => ["n=0 err=url tgt=nil".toList]
+          | some u' => tails.map fun tail => "n=1 ".toList ++ showSent ⟨m, u', 0, hdr, bodyRec⟩ ++ ' ' :: tail
+        let sentNow := if (specURLs c ps).all (fun u => (urlParse u).isSome) then 1 else 0
+        let cur' := match parseResp r with
+          | some t => if sentNow = 1 ∧ (f = .none ∨ f = .ser) then t else cur
+          | none => cur
+        ({ st with sent := st.sent + sentNow, calls := st.calls.set i (ps, body, cur') }, outs)
+  | ["mut"] => (st, [if st.sent = 0 then "nomut".toList else "nil".toList])
+  | ["dh"] => (st, ["hdr ".toList ++ showHeaderOpt c.hdr])
+  | ["sent"] => (st, ["sent ".toList ++ (toString st.sent).toList])
+  | _ => (st, ["bad-op".toList])
+
+def judge (line impl : String) : String :=
+  let (head, ops) := splitCase line
+  let c := parseCfg head
+  let obs := (impl.splitOn " | ")
+  if obs.length ≠ ops.length then "violation wrong number of observations" else
+  let (_, bad) := (ops.zip obs).foldl (fun (acc : SpecSt × List String) oo =>
+    let (st, exp) := specOp c acc.1 oo.1
+    if exp.contains oo.2.toList then (st, acc.2)
+    else (st, acc.2 ++ [s!"op '{oo.1}': observed '{oo.2}', property demands '{String.ofList (exp.headD [])}'"]))
+    (⟨0, []⟩, [])
+  match bad with
+  | [] => "allowed every observation is what the property statement prescribes (model differs)"
+  | b :: _ => "violation " ++ b
 
 end FpgoVerif.C17
